@@ -39,8 +39,8 @@ def _read(text: typing.Any, env: typing.Optional[typing.Mapping[str, typing.Any]
     except pydsdl.InvalidDefinitionError as ex:
         if ex.path is None:
             return "%s without a path" % type(ex).__name__
-        if ex.path != culprit.file_path and ex.path != t.file_path:
-            return "%s attributed to %s" % (type(ex).__name__, ex.path)
+        if ex.path != culprit.file_path and (dep_text is not None or ex.path != t.file_path):
+            return "%s attributed to %s, the offending file is %s" % (type(ex).__name__, ex.path, culprit.file_path)
         return True
     except pydsdl.InternalError as ex:
         return "InternalError escaped: %s" % ex.text.split("\n")[0][:160]
@@ -235,7 +235,8 @@ def make_tokens(template: int, op: str):
 def make_dep(variant: int):
     """Garbage in a DEPENDENCY: the error must still be an InvalidDefinitionError with a path."""
     bodies = ["@sealed\n@sealed", "uint8 a\n", "uint8 &\n@sealed", "@print 1/0\n@sealed", "ns.T.1.0 back\n@sealed",
-              "ns.Dep.1.0 self\n@sealed", "@assert false\n@sealed", "\x00", ""]
+              "ns.Dep.1.0 self\n@sealed", "@assert false\n@sealed", "\x00", "", "@union\nuint8 a\n@sealed", "uint8 a\nuint8 a\n@sealed",
+              "byte b\n@sealed", "uint8 a\n@extent 4", "void8 a\n@sealed", "@deprecated\n@deprecated\n@sealed"]
 
     def concrete(i: int) -> typing.Any:
         return _read("ns.Dep.1.0 d\n@sealed\n", None, bodies[i])
@@ -453,7 +454,8 @@ def conditions(tier: str, seed: int) -> typing.List[Cond]:
                                          "tokens)" % (op, ti, len(POOL))],
                             witness={"p": 1, "r": 0}, budget=240.0, need_exhaust=True, key="key_c13"))
     out.append(Cond(PROP, "c13.dep", make_dep, {"variant": 0}, {"i": int}, kind="choice", witness={"i": 2}, budget=120.0,
-                    assumptions=["9 faulty dependency bodies (incl. self reference and back reference)"],
+                    assumptions=["15 faulty dependency bodies (parse-stage and finalize-stage faults, self reference, back reference): "
+                                 "the error must carry the DEPENDENCY's path"],
                     need_exhaust=True, key="key_c13"))
     out.append(Cond(PROP, "c13.huge", make_huge, {}, {"i": int}, kind="choice", witness=None, budget=120.0,
                     assumptions=["numbers with more than 4300 decimal digits reaching a print / message / literal site"],
